@@ -1648,6 +1648,10 @@ func CharCode(vm *VM, char, code Term, k Cont, env *Env) *Promise {
 		case Variable:
 			return Error(InstantiationError(env))
 		case Integer:
+			if cd < 0 || cd > unicode.MaxRune {
+				return Error(representationError(flagCharacterCode, env))
+			}
+
 			r := rune(cd)
 
 			if !utf8.ValidRune(r) {
@@ -2382,7 +2386,7 @@ func NumberCodes(vm *VM, num, codes Term, k Cont, env *Env) *Promise {
 		case Variable:
 			return numberCodesWrite(vm, num, codes, k, env)
 		case Integer:
-			if !utf8.ValidRune(rune(e)) {
+			if e < 0 || e > unicode.MaxRune || !utf8.ValidRune(rune(e)) {
 				return Error(representationError(flagCharacterCode, env))
 			}
 			_, _ = sb.WriteRune(rune(e))
@@ -2432,7 +2436,7 @@ func numberCodesWrite(vm *VM, num, codes Term, k Cont, env *Env) *Promise {
 		case Variable:
 			break
 		case Integer:
-			if !utf8.ValidRune(rune(e)) {
+			if e < 0 || e > unicode.MaxRune || !utf8.ValidRune(rune(e)) {
 				return Error(representationError(flagCharacterCode, env))
 			}
 		default:
